@@ -4,6 +4,7 @@ package main
 // ACCEPT, VALIDATE-DOM, the acceptance-case default-field rule.
 
 import (
+	"sort"
 	"fmt"
 	"go/token"
 	"go/types"
@@ -607,6 +608,20 @@ func ruleDFACCEPT(c *Ctx, r *Report) {
 			k := c.key(res, p.Env)
 			if strings.Contains(k, "$0."+pr.DefF.Name()) {
 				wraps = true
+				fieldSet := false
+				for _, a := range p.Atoms {
+					if a.Kind == "cmp" && a.Subj == "$0."+pr.DefF.Name() && a.Op == "!=" && a.Val == `""` {
+						fieldSet = true
+					}
+					if a.Kind == "len" && a.Subj == "$0."+pr.DefF.Name() && (a.Op == ">" && a.N >= 0 || a.Op == ">=" && a.N >= 1 || a.Op == "!=" && a.N == 0) {
+						fieldSet = true
+					}
+				}
+				if fieldSet {
+					r.ok(rule, "accept|only-with-field", c.instrPos(p.Ret), "scoping applied under defaultField != \"\"")
+				} else {
+					r.bad(rule, "accept|only-with-field", c.instrPos(p.Ret), "the single-term acceptance case scopes the term on a path that has not established that a default field is configured: without the option a lone term comes back as `\"\":term`, so the option changes more than the scoping")
+				}
 				bops := []string{}
 				if call.Call.StaticCallee() == c.pkgFunc(pkgExpr, "Expr") {
 					if kk, ok := c.resolve(call.Call.Args[1], p.Env).(*ssa.Const); ok {
@@ -655,7 +670,10 @@ func ruleDFACCEPT(c *Ctx, r *Report) {
 		return
 	}
 	if len(badKinds) > 0 {
-		r.bad(rule, "accept|leaf-kinds", badPos, fmt.Sprintf("a query that is a single bare term of kind %v is returned unscoped although a default field is set (only some leaf kinds are wrapped)", badKinds))
+		sort.Strings(badKinds)
+		for _, kind := range badKinds {
+			r.bad(rule, "accept|leaf-kind|"+kind, badPos, fmt.Sprintf("a query that is a single bare term of kind %s is returned unscoped although a default field is set", kind))
+		}
 	} else {
 		r.ok(rule, "accept|leaf-kinds", c.pos(pr.ParseLoop.Pos()), "all leaf kinds wrapped when a field is set")
 	}
